@@ -866,3 +866,43 @@ benign('T6-entry-first', ['C10', 'C08'], [
 benign('T7-extra-trace', ['C10'], [
     (PS, "                transitions.push((address, transition));\n", "                tracing::trace!(target: \"grevm\", ?address, \"transition\");\n                transitions.push((address, transition));\n"),
 ])
+
+# ---- loop-control exactness (LC): survivors of the mechanical mutation sweep turned into rules
+mutant('LC1-finality-starts-at-1', ['C02', 'C05'], [(S, "        let mut finality_idx = 0;\n", "        let mut finality_idx = 1;\n")], ['|LC1|'])
+mutant('LC1-lower-ts-starts-at-1', ['C05'], [(S, "        let mut lower_ts = 0;\n", "        let mut lower_ts = 1;\n")], ['|LC1|'])
+mutant('LC1-finality-loop-le-block-size', ['C05'], [(S, "while !self.is_aborted() && finality_idx < self.block_size {", "while !self.is_aborted() && finality_idx <= self.block_size {")], ['|LC1|'])
+mutant('LC1-finality-loop-abort-polarity', ['C05'], [(S, "while !self.is_aborted() && finality_idx < self.block_size {", "while self.is_aborted() && finality_idx < self.block_size {")], [])
+mutant('LC1-finality-loop-or', ['C05'], [(S, "while !self.is_aborted() && finality_idx < self.block_size {", "while !self.is_aborted() || finality_idx < self.block_size {")], [])
+mutant('LC1-finality-cursor-not-advanced', ['C05', 'C02'], [(S, "                finality_idx = next_finality_idx;\n", "")], ['|LC1|'])
+mutant('LC2-commit-starts-at-1', ['C02'], [(S, "        let mut commit_idx = 0;\n", "        let mut commit_idx = 1;\n")], ['|LC2|'])
+mutant('LC2-commit-loop-le-block-size', ['C05'], [(S, "while !self.is_aborted() && commit_idx < self.block_size {", "while !self.is_aborted() && commit_idx <= self.block_size {")], ['|LC2|'])
+mutant('LC2-commit-cursor-not-advanced', ['C02', 'C05'], [(S, "                        commit_idx = next_commit_idx;\n", "")], ['|LC2|'])
+mutant('LC3-finality-sleeps-on-candidate', ['C05'], [(S, "self.lock_finality_candidate(finality_idx, lower_ts).is_none()\n", "self.lock_finality_candidate(finality_idx, lower_ts).is_some()\n")], ['|LC3|'])
+mutant('LC3-commit-sleeps-on-work', ['C05'], [(S, "!self.is_aborted() && commit_idx >= self.scheduler_ctx.finality_idx()", "!self.is_aborted() && commit_idx <= self.scheduler_ctx.finality_idx()")], ['|LC3|'])
+benign('LC3-commit-spins-when-level', ['C05', 'C02'], [(S, "!self.is_aborted() && commit_idx >= self.scheduler_ctx.finality_idx()", "!self.is_aborted() && commit_idx > self.scheduler_ctx.finality_idx()")])
+mutant('LC4-follow-up-overwritten', ['C05'], [(S, "if task.is_none() && !self.is_aborted() {", "if task.is_none() || !self.is_aborted() {")], ['|LC4|'])
+mutant('LC4-next-only-when-some', ['C05'], [(S, "if task.is_none() && !self.is_aborted() {", "if task.is_some() && !self.is_aborted() {")], [])
+mutant('LC5-execute-stale-test-inverted', ['C05', 'C02'], [(S, """        if tx_state.incarnation != incarnation {
+            self.abort(AbortReason::ParallelError {
+                txid,
+                message: "inconsistent incarnation during execution",""", """        if tx_state.incarnation == incarnation {
+            self.abort(AbortReason::ParallelError {
+                txid,
+                message: "inconsistent incarnation during execution",""")], ['|LC5|'])
+mutant('LC5-validate-stale-test-inverted', ['C05'], [(S, """        if tx_state.incarnation != incarnation {
+            self.abort(AbortReason::ParallelError {
+                txid,
+                message: "inconsistent incarnation during validation",""", """        if tx_state.incarnation == incarnation {
+            self.abort(AbortReason::ParallelError {
+                txid,
+                message: "inconsistent incarnation during validation",""")], ['|LC5|'])
+mutant('LC6-commit-panic-swallowed', ['C05'], [(S, """                    Err(panic) => {
+                        thread_panic = Some(panic);
+                        None""", """                    Err(panic) => {
+                        drop(panic);
+                        None""")], ['|LC6|'])
+mutant('LC6-worker-panic-kept-only-after-another', ['C05'], [(S, """                    if let Err(panic) = worker.join() &&
+                        thread_panic.is_none()""", """                    if let Err(panic) = worker.join() &&
+                        thread_panic.is_some()""")], ['|LC6|'])
+mutant('LC7-anchor-fault-reported-at-1', ['C04'], [(S, ".map_err(|e| GrevmError { txid: 0, error: EVMError::Database(e) })?;", ".map_err(|e| GrevmError { txid: 1, error: EVMError::Database(e) })?;")], ['|LC7|'])
+benign('LC1-ne-loop-bound', ['C05', 'C02'], [(S, "while !self.is_aborted() && commit_idx < self.block_size {", "while !self.is_aborted() && commit_idx != self.block_size {")])
